@@ -585,4 +585,17 @@ theorem entry_points_and_messages_are_the_modelled_ones :
    MW.Interface.staking_query_eq, MW.Interface.staking_sudo_eq, MW.Interface.staking_migrate_eq,
    MW.Interface.staking_instantiate_eq.1, MW.Interface.treasury_execute_eq, MW.Interface.treasury_rest_eq.1⟩
 
+/-- the state the entry points read and write: storage keys, stored layouts and serde attributes of both contracts as
+the source declares them are exactly the modelled ones (a new storage item, a new field or a changed serde attribute —
+`default`, `alias`, `deny_unknown_fields` — changes what inputs reach the handlers) -/
+theorem state_and_serde_are_the_modelled_ones :
+    MW.Generated.Interface.staking_storage_keys = MW.Interface.model_staking_storage_keys
+    ∧ MW.Generated.Interface.treasury_storage_keys = MW.Interface.model_treasury_storage_keys
+    ∧ (MW.Generated.Interface.staking_attrs = MW.Interface.model_staking_attrs
+        ∧ MW.Generated.Interface.treasury_attrs = MW.Interface.model_treasury_attrs)
+    ∧ MW.Generated.Interface.staking_stored_State = MW.Interface.model_staking_stored_State
+    ∧ MW.Generated.Interface.treasury_stored_State = MW.Interface.model_treasury_stored_State :=
+  ⟨MW.Interface.staking_storage_eq, MW.Interface.treasury_storage_eq, MW.Interface.serde_attrs_eq,
+   MW.Interface.staking_layout_eq.2.2.2.2.1, MW.Interface.treasury_layout_eq.1⟩
+
 end MW.Props.C16
